@@ -296,6 +296,16 @@ def check(ctx):
         d = comp[0]
         ok = isinstance(d.value, ast.Subscript) and norm(d.value.slice) == vr.params[1] \
             and norm(d.generators[0].iter) == vr.params[0] and not d.generators[0].ifs
+    else:
+        # the same dict filled by an explicit loop over the receiver's columns
+        from ..forms import contributions as _contrib01
+        for nm in sorted({n.targets[0].id for n in body_nodes(vr.node) if isinstance(n, ast.Assign) and isinstance(n.targets[0], ast.Name)
+                          and isinstance(n.value, ast.Dict)}):
+            cs = [x for x in _contrib01(vr, nm) if x["key"] is not None]
+            if cs and all(x["iter"] is not None and norm(x["iter"]) in (vr.params[0], f"{vr.params[0]}.items()") and not x["conds"]
+                          and isinstance(x["value"], ast.Subscript) and norm(x["value"].slice) == vr.params[1] for x in cs):
+                ok = True
+                comp = [cs[0]["node"]]
     ctx.ob("STO-3", vr, norm(comp[0]) if comp else "_view_rows body", comp[0] if comp else vr.node, ok,
            "every column is indexed with the same rows" if ok else "_view_rows does not index every column with the same rows",
            clause="all columns have the same length")
